@@ -329,7 +329,10 @@ func c13(r *core.Run) {
 			}
 		}
 		nthParam := func(f *ssa.Function, n int) func(ssa.Value) bool {
-			return func(v ssa.Value) bool { pa, ok := v.(*ssa.Parameter); return ok && len(f.Params) > n && pa == f.Params[n] }
+			return func(v ssa.Value) bool {
+				pa, ok := v.(*ssa.Parameter)
+				return ok && len(f.Params) > n && pa == f.Params[n]
+			}
 		}
 		n := 0
 		// comparator of the sort
